@@ -1,5 +1,6 @@
 import PV.Common.Proto
 import PV.Prog.Parse
+import PV.Prog.Render
 /-! Driver for PROG (the statement level of the grammar): answers the same request lines as
   `harness/src/bin/pvh_prog.rs`.
 
@@ -8,6 +9,16 @@ import PV.Prog.Parse
   decoded to their values with the string model of `PV.C11.Lexer` (`string.rs`), and
   `PV.Prog.parseProgram` is run.  Answer: the canonical range-erased tree, byte-identical to the harness's, or
   `parse-error`.  The source text itself is not used on this side.
+
+  `render <mode> <hex src> <attachment>`: the tree is parsed as above; if it lies in the fragment of the proved round
+  trip (`PV.Prog.inFragM`) it is printed by `PV.Prog.render` and the TEXT of the token list (tokens separated by one
+  space, four spaces per indentation level) is answered as `R <k> <hex text>` (`k`: how many NAME tokens of the
+  rendering are spelled like a soft keyword); otherwise `outside` / `parse-error`.
+
+  `rt <mode> <hex src> <attachment> <hex rendered> <attachment of the rendered text>`: the printer against the real
+  lexer and parser (stream `render-roundtrip`): `text=` the text this driver renders for the tree of the first
+  attachment is the one in the request, `toks=` the REAL token stream of that text is exactly `PV.Prog.render tree`,
+  `eq=` parsing that stream gives the original tree back; then the tree read off the rendered text.
 -/
 open PV PV.Expr PV.C11 PV.Prog
 
@@ -252,15 +263,67 @@ def decodeToks (att : String) : Option (List PTok) :=
     | some t, some ts => some (t :: ts)
     | _, _ => none) (some [])
 
-def modeOf : String → Option Mode
+def modeOfStr : String → Option Mode
   | "m" => some .module
   | "i" => some .interactive
   | "e" => some .expression
   | _ => none
 
+/-! the printer as text -/
+
+/-- every non-ASCII character of a string literal is written as an escape -/
+def noPrintable : Nat → Bool := fun _ => false
+
+/-- tokens separated by one space; NEWLINE ends the line; four spaces per open INDENT -/
+def textGo : List Tok → Nat → Bool → List Nat
+  | [], _, _ => []
+  | t :: r, ind, lineStart =>
+    if t = tNewline then 10 :: textGo r ind true
+    else if t = tIndent then textGo r (ind + 1) lineStart
+    else if t = tDedent then textGo r (ind - 1) lineStart
+    else (if lineStart then List.replicate (4 * ind) 32 else [32]) ++ Tok.text noPrintable t ++ textGo r ind false
+
+def renderText (m : Mod) : List Nat := textGo ((render m).map PTok.toTok) 0 true
+
+/-- number of NAME tokens spelled `match` / `case` / `type` (soft keywords used as identifiers) -/
+def softNames (ts : List PTok) : Nat :=
+  (ts.filter fun
+    | .e (.name n) => n == HK.text .match || n == HK.text .case || n == HK.text .type
+    | _ => false).length
+
+def b01 (b : Bool) : String := if b then "1" else "0"
+
 def handle : List String → String
+  | ["render", m, _src, att] =>
+    (match modeOfStr m with
+     | none => "bad-request"
+     | some mode =>
+       match decodeToks att with
+       | none => "parse-error"
+       | some ts =>
+         match parseProgram mode ts with
+         | some t =>
+           if inFragM t then s!"R {softNames (render t)} " ++ hex (utf8Encode (renderText t)) else "outside"
+         | none => "parse-error")
+  | ["rt", m, _src, att, rsrc, ratt] =>
+    (match modeOfStr m with
+     | none => "bad-request"
+     | some mode =>
+       match decodeToks att, decodeToks ratt with
+       | some ts, some rts =>
+         (match parseProgram mode ts with
+          | none => "orig-parse-error"
+          | some t =>
+            let okText := hex (utf8Encode (renderText t)) == rsrc
+            let okToks := decide (render t = rts)
+            match parseProgram mode rts with
+            | none => s!"eq=0 text={b01 okText} toks={b01 okToks} infrag={b01 (inFragM t)} tree=parse-error"
+            | some t' =>
+              let d := dumpMod t'
+              s!"eq={b01 (d == dumpMod t)} text={b01 okText} toks={b01 okToks} infrag={b01 (inFragM t)} tree={d}")
+       | _, _ => "orig-parse-error")
   | ["prog", m, _src, att] =>
-    (match modeOf m with
+    (match modeOfStr m with
      | none => "bad-request"
      | some mode =>
        match decodeToks att with
